@@ -238,6 +238,14 @@ class Gen:
                          ('cached', 10 * c.cached if (c.cached_under_replace or not under_replace) else 0)])
         if k == 'leaf':
             return self.leaf()
+        if k == 'concat' and c.invalid_utf8 > 0 and r.random() < 0.15:
+            # adjacent binary leaves that split multi-byte characters at their boundaries: each leaf
+            # decodes lossily on its own, the joined bytes would decode differently
+            b = ''.join(r.choice(['\u00e9', '\u20ac', '\U0001f600', 'a', '\n', '\u597d']) for _ in range(r.randrange(1, 5))).encode()
+            cuts = sorted(r.randrange(0, len(b) + 1) for _ in range(r.randrange(1, 4)))
+            pieces = [b[i:j] for i, j in zip([0] + cuts, cuts + [len(b)])]
+            items = [(False, (r.choice(['rawb', 'rbuf']), p)) for p in pieces]
+            return ('concat', 'new' if r.random() < 0.6 else 'add', items)
         if k == 'concat':
             n = weighted(r, [(0, 0.5), (1, 1), (2, 4), (3, 3), (4, 1)])
             items = []
